@@ -247,6 +247,58 @@ def audited(rel, tree):
         out += [(n.name, n) for n in tree.body if isinstance(n, ast.FunctionDef) and (n.name.startswith('phi_') or n.name in ('remove_pop', 'filter_pops', 'reorder_pops'))]
     return out
 
+# ---------------------------------------------------------------- iteration order of sets (hash-seed dependence)
+# A value whose order of iteration depends on PYTHONHASHSEED must not leak into results: every place where a set-typed
+# expression is iterated, listed, enumerated, zipped or popped without passing through sorted()/len/min/max/any/all/set is tabled.
+ORDER_FREE = {'sorted', 'len', 'min', 'max', 'any', 'all', 'set', 'frozenset'}
+def is_set_expr(e, setnames):
+    if isinstance(e, (ast.Set, ast.SetComp)): return True
+    if isinstance(e, ast.Call) and isinstance(e.func, ast.Name) and e.func.id in ('set', 'frozenset'): return True
+    if isinstance(e, ast.Name) and e.id in setnames: return True
+    if isinstance(e, ast.BinOp) and isinstance(e.op, (ast.BitOr, ast.BitAnd, ast.Sub, ast.BitXor)):
+        return is_set_expr(e.left, setnames) or is_set_expr(e.right, setnames)
+    if isinstance(e, ast.Call) and isinstance(e.func, ast.Attribute) and e.func.attr in ('union', 'intersection', 'difference', 'symmetric_difference') and is_set_expr(e.func.value, setnames): return True
+    return False
+def set_order_sites(fn):
+    setnames = set()
+    for n in ast.walk(fn):
+        if isinstance(n, ast.Assign) and is_set_expr(n.value, setnames):
+            for t in n.targets:
+                if isinstance(t, ast.Name): setnames.add(t.id)
+    out = []
+    parents = {}
+    for n in ast.walk(fn):
+        for c in ast.iter_child_nodes(n): parents[c] = n
+    def wrapped_order_free(node):
+        p = parents.get(node)
+        return isinstance(p, ast.Call) and isinstance(p.func, ast.Name) and p.func.id in ORDER_FREE and node in p.args
+    for n in ast.walk(fn):
+        if isinstance(n, ast.For) and is_set_expr(n.iter, setnames):
+            out.append('line %d: for … in %s' % (n.lineno, ast.unparse(n.iter)))
+        elif isinstance(n, (ast.ListComp, ast.GeneratorExp, ast.DictComp)):
+            for g in n.generators:
+                if is_set_expr(g.iter, setnames) and not wrapped_order_free(n):
+                    out.append('line %d: comprehension over %s' % (n.lineno, ast.unparse(g.iter)))
+        elif isinstance(n, ast.Call) and isinstance(n.func, ast.Name) and n.func.id in ('list', 'tuple', 'enumerate', 'zip', 'iter', 'next') and any(is_set_expr(a, setnames) for a in n.args) and not wrapped_order_free(n):
+            out.append('line %d: %s' % (n.lineno, ast.unparse(n)[:60]))
+        elif isinstance(n, ast.Call) and isinstance(n.func, ast.Attribute) and n.func.attr == 'pop' and not n.args and is_set_expr(n.func.value, setnames):
+            out.append('line %d: %s' % (n.lineno, ast.unparse(n)[:60]))
+    return out
+
+def all_set_order_sites():
+    out = []
+    root = os.path.join(T.REPO, 'dadi')
+    for dp, dn, fns in sorted(os.walk(root)):
+        for f in sorted(fns):
+            if not f.endswith('.py'): continue
+            path = os.path.join(dp, f); rel = os.path.relpath(path, root)
+            tree = ast.parse(open(path).read())
+            for n in ast.walk(tree):
+                if isinstance(n, (ast.FunctionDef, ast.AsyncFunctionDef)):
+                    for ev in set_order_sites(n):
+                        out.append((rel, n.name, ev))
+    return out
+
 def lstr(xs):
     return '[' + ', '.join(json.dumps(x) for x in xs) + ']'
 
@@ -274,5 +326,8 @@ def generate():
         '  { module := %s, fn := %s, mutatesArg := %s, returnsAlias := %s, evidence := %s }' % (
             json.dumps(e['module']), json.dumps(e['fn']), 'true' if e['mut'] else 'false', 'true' if e['ret'] else 'false', lstr(e['ev']))
         for e in effects) + '\n]')
+    so = all_set_order_sites()
+    out.append('/-- places (module, function, what) where the iteration order of a set can reach a result -/')
+    out.append('def setOrderSites : List (String × String × String) := [' + ', '.join('(%s, %s, %s)' % (json.dumps(a), json.dumps(b), json.dumps(c)) for a, b, c in so) + ']')
     out.append('end Effects\nend Gen\nend DadiVerif\n')
     return '\n'.join(out)
